@@ -434,6 +434,27 @@ def run(rep):
                     j += 1
     finally:
         S.PYSMT_ESCAPES[0] = False
+    # the text a solver object sends is SMT-LIB export too: histories of
+    # the text-interface checker over declared sorts (assert, push / pop,
+    # reset_assertions), judged by the strict reference solver
+    if not rep.only or rep.only == 'solver-stream':
+        from . import c17
+
+        class ExportHistory(c17.History):
+            def bad(self, what, msg):
+                self.rep.violation(
+                    'C07/solver-stream/%s' % what,
+                    '%s\n  history: %s' % (msg, self.trace[-12:]),
+                    {'trace': [str(t) for t in self.trace]})
+        hrng = random.Random(rep.seed * 7919 + rep.shard)
+        for hi in range(3 if quick else 40):
+            if rep.out_of_time():
+                break
+            # (index = 3 mod 4: the histories that use declared sorts)
+            ExportHistory(rep, hrng, 4 * (hi * rep.nshards + rep.shard) + 3
+                          ).run(14)
+            rep.count('solver_stream_histories')
+        common.fresh_env()
     # every operator with systematic operand shapes
     rep.share(0.4)
     sysl = [b for (_, _, b) in G.systematic(
